@@ -244,7 +244,7 @@ def run_leg(exe, leg, seed, total, workdir, flavour, harness, extra_args=(), job
             if timed_out:
                 # confirm on the single case with a fresh process before calling it a hang
                 cmd1 = [exe, "--seed", str(seed), "--first", str(case), "--count", "1", "--mode", mode,
-                        "--out", workdir, "--progress", prog + ".1", "--watchdog", "0"] + list(extra_args) + list(leg.get("args", []))
+                        "--out", workdir, "--progress", prog + ".1"] + list(extra_args) + list(leg.get("args", [])) + ["--watchdog", "0"]
                 rc1, out1, err1, to1 = _run_child(cmd1, env, case_timeout)
                 if to1:
                     local.hangs += 1
@@ -259,7 +259,9 @@ def run_leg(exe, leg, seed, total, workdir, flavour, harness, extra_args=(), job
                 else:
                     local.inconclusive.append("shard %s timed out after %ds at case %d but the case alone finished (rc=%s)"
                                               % (tag, shard_timeout, case, rc1))
+                    crashes += 1        # unconfirmed expiries count toward abandoning the shard too
                     if rc1 not in (0, None):
+                        local.crashes += 1
                         key, text = classify_crash(err1, rc1)
                         local.viols.append(dict(meta, t="viol", key="crash/" + key, case=case, seed=seed,
                                                 detail=text[:1500], desc=""))
